@@ -142,6 +142,29 @@ def index_of_computed_sequence(q: ast.AST, **kw) -> bool:
     return False
 
 
+def self_join_through_shared_variable(q: ast.AST, **kw) -> bool:
+    """a sequence operator applied to a NAME (or indexed/attributed name: t[0], d.a) inside the lambda of a sequence
+    operator applied to the very same expression: both loops run over one collection variable"""
+    def src_text(n):
+        s = call_source(n)
+        if s is None:
+            return None
+        base = s
+        while isinstance(base, (ast.Subscript, ast.Attribute)):
+            base = base.value
+        return ast.unparse(s) if isinstance(base, ast.Name) else None
+    for n in ast.walk(q):
+        if call_name(n) in SEQ_OPS | AGG_TERMINALS and isinstance(n, ast.Call):
+            st = src_text(n)
+            lam = call_lambda(n)
+            if st is None or lam is None:
+                continue
+            for m in ast.walk(lam.body):
+                if isinstance(m, ast.Call) and call_name(m) in SEQ_OPS | AGG_TERMINALS and src_text(m) == st:
+                    return True
+    return False
+
+
 def always(q: ast.AST, **kw) -> bool:
     return True
 
@@ -156,6 +179,7 @@ PREDICATES: Dict[str, Callable[..., bool]] = {
     "range_with_computed_bound": range_with_computed_bound,
     "true_division": true_division,
     "index_of_computed_sequence": index_of_computed_sequence,
+    "self_join_through_shared_variable": self_join_through_shared_variable,
 }
 
 
